@@ -15,13 +15,14 @@ enum { F_QUEUE_FULL };
 static const char *const fault_names[] = { "queue_full_claim_refused", NULL };
 enum { P_DEPTH1, P_DEPTH32, P_WRAPPED, P_SEND_REORDERED, P_RECEIVE_BLOCKED, P_SLACK, P_HELD_DELAYED,
        P_NON_POW2_SIZE, P_BOTH_ROUTES, P_EMPTY_TRUE, P_EMPTY_FALSE, P_FULL_THEN_RELEASE, P_LONG_HISTORY,
-       P_CLAIMS_OVER_256 };
+       P_CLAIMS_OVER_256, P_BIG_MESSAGES, P_STORAGE_OVER_64K };
 static const char *const probe_names[] = {
 	"depth_1", "depth_32", "slot_index_wrapped", "send_out_of_claim_order",
 	"receive_blocked_by_unsent_oldest", "slack_bytes_present", "release_delayed",
 	"message_size_not_power_of_two", "both_construction_routes_in_lock_step",
 	"empty_reported_true", "empty_reported_false", "claim_succeeds_after_release_of_full_queue",
-	"history_of_900_to_2400_operations", "more_than_256_claims_on_one_queue", NULL };
+	"history_of_900_to_2400_operations", "more_than_256_claims_on_one_queue",
+	"message_size_255_to_65535", "storage_larger_than_64KiB", NULL };
 
 #define MAXDEPTH 32
 
@@ -42,15 +43,21 @@ static bool was_full;
 
 static void fill_payload(uint8_t *p, uint32_t st)
 {
-	for (uint32_t i = 0; i < msg_len; i++)
+	for (uint32_t i = 0; i < msg_len; i++) {
+		if (i == 64 && msg_len > 192)
+			i = msg_len - 64;	/* big messages: stamp both ends only */
 		p[i] = (uint8_t)(st * 7 + i * 13 + 1);
+	}
 }
 
 static bool payload_ok(const uint8_t *p, uint32_t st)
 {
-	for (uint32_t i = 0; i < msg_len; i++)
+	for (uint32_t i = 0; i < msg_len; i++) {
+		if (i == 64 && msg_len > 192)
+			i = msg_len - 64;
 		if (p[i] != (uint8_t)(st * 7 + i * 13 + 1))
 			return false;
+	}
 	return true;
 }
 
@@ -68,8 +75,16 @@ static void run(void)
 	uint32_t d = sim_choose(sizeof(depths) + 4);
 	depth = d < sizeof(depths) ? depths[d] : 1 + sim_choose(32);
 	msg_len = sim_choose(4) ? 1 + sim_choose(40) : (1u << sim_choose(6));
+	if (sim_chance(1, 40)) {
+		/* "every message size": msg_len is 16 bits wide, storage may exceed 64 KiB */
+		static const uint16_t big[] = { 255, 256, 257, 2048, 4095, 4096, 8192, 32768, 65535 };
+		msg_len = big[sim_choose(9)];
+		sim_probe(P_BIG_MESSAGES);
+	}
 	slack = sim_choose(2) ? sim_choose(msg_len) : 0;
 	base_len = depth * msg_len + slack;
+	if (base_len > 65536)
+		sim_probe(P_STORAGE_OVER_64K);
 	uint32_t route = sim_choose(3);		/* 0 init(), 1 static initialiser, 2 both */
 	uint32_t nops = 10 + sim_choose(111);
 	uint32_t bias = sim_choose(3);		/* 0 balanced, 1 producer heavy (full), 2 consumer heavy */
@@ -89,7 +104,7 @@ static void run(void)
 	if (route == 2) sim_probe(P_BOTH_ROUTES);
 	for (int r = 0; r < nroutes; r++) {
 		rt[r].store = sim_alloc(base_len);	/* exact size: redzones on both sides */
-		for (uint32_t i = 0; i < base_len; i++)
+		for (uint32_t i = base_len > 8192 ? depth * msg_len : 0; i < base_len; i++)
 			rt[r].store[i] = (uint8_t)(0xc3 ^ i);
 		rt[r].mq = sim_alloc(sizeof(messageq_t));
 		bool use_init = route == 0 || (route == 2 && r == 0);
